@@ -200,6 +200,27 @@ func (c *Ctx) MustCut(rule, what string, f *ssa.Function, target InstrPred, cut 
 
 	bad, w := c.P.Reach(Entry(f), target, cut)
 	if bad {
+		// a guard hoisted into the callers: an unexported function all of whose call sites are known may rely
+		// on every caller having passed the enabling events before the call
+		if sites := c.P.knownCallers(f); len(sites) > 0 {
+			all := true
+
+			for _, cs := range sites {
+				g := cs.Parent()
+				this := cs
+
+				if open, _ := c.P.Reach(Entry(g), func(in ssa.Instruction) bool { return in == this.(ssa.Instruction) }, cut); open {
+					all = false
+				}
+			}
+
+			if all {
+				c.OK(rule, construct, ts[0].Pos(), fmt.Sprintf("enabling events are passed before each of the %d call sites of this (unexported) function", len(sites)))
+
+				return true
+			}
+		}
+
 		c.Bad(rule, construct, ts[0].Pos(), "open path: "+strings.Join(w, " "))
 
 		return false
